@@ -69,10 +69,13 @@ package layer2
 //@   loop 1 invariant forall s string, k int :: (s in a.ips) == old(s in a.ips) && Entry(a, s, k) == old(Entry(a, s, k)) && (Entry(a, s, k) ==> a.ips[s][k] == old(a.ips[s][k]))
 //@   loop 2 invariant lockstate(a.RWMutex) == 2
 
+// AnswersExcept: some announced Service other than `name` holds ip with an advertisement covering intf.
+//@ pred AnswersExcept(a *Announce, ip net.IP, intf string, name string) := exists s string, k int :: s != name && Entry(a, s, k) && a.ips[s][k].ip.Equal(ip) && Covers(a.ips[s][k], intf)
 //@ func (*Announce).DeleteBalancer
 //@   requires AnnInv(a) && lockstate(a.RWMutex) == 0
 //@   ensures [inv] AnnInv(a) && lockstate(a.RWMutex) == 0
 //@   ensures [gone] !(name in a.ips)
+//@   ensures [exact] forall ip net.IP, intf string :: Answers(a, ip, intf) == old(AnswersExcept(a, ip, intf, name))
 //@   ensures [others] forall s string, k int :: s != name ==> (s in a.ips) == old(s in a.ips) && Entry(a, s, k) == old(Entry(a, s, k)) && (Entry(a, s, k) ==> a.ips[s][k] == old(a.ips[s][k]))
 //@   modifies $held, map(a.ips), map(a.ipRefcnt), map[string]int64, fresh []interface{}
 //@   loop 1 invariant lockstate(a.RWMutex) == 2 && AnnInv(a) && !(name in a.ips)
